@@ -32,3 +32,8 @@ json.dump({"_doc": "reviewed hazard sites (rules/hazards.py); key = function | f
 print(len(out), "keys,", sum(e["count"] for e in out), "sites")
 for e in out:
     print(e["kind"], "|", e["key"], "|", e["count"], "|", e["at"])
+
+uses = hazards.config_uses(ctx)
+json.dump({"_doc": "reviewed reads of configuration fields per function (rules/hazards.py H5: a field replaced by another field of the same type in one function is reported)",
+           "uses": {k: dict(sorted(v.items())) for k, v in sorted(uses.items())}}, open(os.path.join(hazards.VERIF, "tables", "config_uses.json"), "w"), indent=1)
+print(len(uses), "functions read configuration fields")
